@@ -385,7 +385,7 @@ def r13_3(ctx):
     # (b) the recursive reset reaches every stage's method.untranscribe
     ur = prog.own_method("Stage", "_untranscribe_recurse")
     ok_m, _ = must_on_all_paths(ur.node.body, lambda n: is_call_to(n, "untranscribe", "self._method"),
-                                env={"self._method is not None": True})
+                                env={"self._method is not None": True, "self._method is None": False})
     ctx.check(ok_m, "Stage._untranscribe_recurse -> method.untranscribe", detail="method.untranscribe not called",
               expected="self._method.untranscribe(...) on every path", found="missing", fi=ur)
     rec = [n for n in walk_no_nested(ur.node) if is_call_to(n, "_untranscribe_recurse")]
